@@ -52,11 +52,11 @@ CHECKS['C13'] = dict(
     rule='for every font variant EVERY code point 0..0x110010 is looked up through DirectCmap (options 0) and CachedCmap (gr_face_cacheCmap) and compared with a reference lookup written from the OpenType spec '
          '(fmt 12 above U+FFFF, fmt 4 for the BMP, 0 unmapped); gr_face_is_char_supported compared with reference||Silf pseudo map. Variants: all shipped fonts; synthesised cmaps over the structure space '
          '{1,2,3,17,256 segments} x {delta, wrapping delta, idRangeOffset arrays with zero entries, mixed} x {standard FFFF terminator, U+FFFF mapped, real segment ending at FFFF} x 7 fmt-12 group lists '
-         '(plane-edge straddling, BMP entries, 300 groups, U+10FFFF mapped); first segment starting at U+0000 (1, 2, 9 code points) x closing segment ending at FFFF with 1..257 real mappings x {delta, array}; all 31x4 presence combinations of the encoding records (0,0)(0,1)(0,2)(0,3)(3,1) x (0,4)(3,10) with distinguishable contents. '
+         '(plane-edge straddling, BMP entries, 300 groups, U+10FFFF mapped); subtable data stored in the opposite order of the encoding records; first segment starting at U+0000 (1, 2, 9 code points) x closing segment ending at FFFF with 1..257 real mappings x {delta, array}; all 31x4 presence combinations of the encoding records (0,0)(0,1)(0,2)(0,3)(3,1) x (0,4)(3,10) with distinguishable contents. '
          'distinct = distinct per-plane reference maps',
     state_meaning='one (font variant, plane) block; transitions = individual code-point lookups compared with the reference',
     level_text='Exhaustive per font over the whole code space through both lookup paths against an independent reference; the font space is a bounded enumeration of cmap structures.',
-    level_note='Trusted: reference lookup (OpenType cmap spec), reference Silf pseudo-map reader. Synthesised cmaps keep subtables in encoding-record order (the layout font compilers emit).',
+    level_note='Trusted: reference lookup (OpenType cmap spec), reference Silf pseudo-map reader. Synthesised cmaps keep subtables in encoding-record order, plus variants with the data in the opposite order.',
     technique='exhaustive enumeration of code points x bounded enumeration of cmap structures on the real code vs reference model',
     assumptions=['subtables laid out in encoding-record order'],
 )
